@@ -20,12 +20,18 @@ CONSTANT Tier
 
 Cells == {"op.DefaultEndpoints", "op.DefaultSupportedClaims", "op.DefaultSupportedScopes", "httphelper.DefaultHTTPClient", "callerHTTPClient",
           "callerHTTPClient.followsRedirects", "defaultHTTPClient.followsRedirects", "providerA.discovery", "providerA.routes", "legacyA.routes",
-          "rpA.endpoints", "storage.DeviceAuthorizationState"}
+          "rpA.endpoints", "storage.DeviceAuthorizationState",
+          \* a caller-owned interceptor chain handed to several constructors, and the order in which a router built from it earlier runs them
+          "callerInterceptorChain", "routerA2.interceptorOrder",
+          \* two providers with their own storages and signing keys whose key ids coincide: each signs with its own key
+          "providerA.tokenSignature", "providerB.tokenSignature"}
+\* cells that have one right value at any time (o.unhealthy lists those that do not show it after the program)
+Healthy == {"callerInterceptorChain", "routerA2.interceptorOrder", "providerA.tokenSignature", "providerB.tokenSignature"}
 
 Ops == {"op.NewProvider", "op.NewProvider+WithCustomAuthEndpoint", "op.NewProvider+WithCustomTokenEndpoint", "op.NewProvider+WithCustomIntrospectionEndpoint",
         "op.NewProvider+WithCustomUserinfoEndpoint", "op.NewProvider+WithCustomRevocationEndpoint", "op.NewProvider+WithCustomEndSessionEndpoint",
         "op.NewProvider+WithCustomKeysEndpoint", "op.NewProvider+WithCustomDeviceAuthorizationEndpoint", "op.NewProvider+WithCustomEndpoints",
-        "op.NewLegacyServer", "provider.serveAll", "legacy.serveAll", "provider.devicePoll",
+        "op.NewLegacyServer", "op.CreateRouter(callerChain)", "op.NewProvider+WithHttpInterceptors(callerChain)", "providerA.issueJWT", "providerB.issueJWT", "provider.serveAll", "legacy.serveAll", "provider.devicePoll",
         "rp.NewRelyingPartyOIDC(caller)", "rp.NewRelyingPartyOIDC(default)", "rp.EndSession(caller)", "rp.EndSession(default)", "rp.RevokeToken(caller)",
         "rp.RevokeToken(default)", "rp.Userinfo(caller)", "rp.RefreshTokens(caller)", "rp.CodeExchange(caller)", "client.Discover(caller)", "client.Discover(default)",
         "rs.Introspect(caller)", "tokenexchange.ExchangeToken(caller)"}
@@ -42,12 +48,14 @@ ConcCases == {[kind |-> "conc", prog |-> SetToSeq({a, b})] : a \in Ops, b \in Op
 Groups == {"seq", "conc"}
 CasesOf(g) == IF g = "seq" THEN SeqCases ELSE ConcCases
 
-\* o = [changed : sequence of cells whose snapshot differs after the program, races : number of race reports, panic]
+\* o = [changed : sequence of cells whose snapshot differs after the program, unhealthy : cells of Healthy that show a wrong value,
+\*      races : number of race reports, panic]
 Rules(c, o) ==
   { <<"C20.isolation", Range(o.changed) \subseteq UNION {WriteSet(op) : op \in Range(c.prog)}>>,
+    <<"C20.instances", o.unhealthy = <<>>>>,
     <<"C20.racefree",  o.races = 0>>,
     <<"C09.nopanic",   ~o.panic>> }
 Check(c, o) == {x[1] : x \in {y \in Rules(c, o) : ~y[2]}}
-Outcomes(c) == {[changed |-> <<>>, races |-> 0, panic |-> FALSE]}
+Outcomes(c) == {[changed |-> <<>>, unhealthy |-> <<>>, races |-> 0, panic |-> FALSE]}
 Conforms(c, o) == TRUE
 =============================================================================
